@@ -274,7 +274,8 @@ def main(argv=None):
             print(f"# UNDECIDED {u}: {e}", file=sys.stderr)
         exit_code = 2
 
-    level = "proof" if n_obl > 0 else "other"
+    # properties whose *deciding* clauses are bounded stand-ins are reported at level "other" whatever else was proved
+    level = "other" if prop in ("C13", "C14", "C15", "C16") else ("proof" if n_obl > 0 else "other")
     cov = {
         "obligations": n_obl, "discharged": n_dis,
         "checker_cmd": f"./check {prop} --tier {tier}",
